@@ -29,6 +29,9 @@ def strategy(tier):
         c, n, tp = draw(gens.cfg(max_dim=320 if tier == "thorough" else 256, min_dim=130, frames=(3, 16), allow_twopass=False, lps=(1,),
                                  presets=(8, 8, 7, 6, 5, 4), slow_p=0))
         c.pop("pic_based_rate_est", None)
+        if c.get("enable_overlays") and draw(st.booleans()):
+            n = draw(st.integers(17, 22))       # long enough for an alt-ref + overlay pair at hierarchical level 4
+            c["enc_mode"] = max(c["enc_mode"], 7)
         cnt = draw(gens.content(kinds=(2, 3, 5, 7, 4)))
         lps = draw(st.lists(st.sampled_from([2, 3, 4, 6, 8, 12, 16, 0]), min_size=2, max_size=3, unique=True))
         settings = [dict(logical_processors=lp, unpin=draw(st.sampled_from([0, 1])), target_socket=draw(st.sampled_from([-1, -1, 0]))) for lp in lps]
